@@ -77,18 +77,20 @@ const (
 var c17Nodes = []string{"n1", "n2", "n3"}
 
 type c17Step struct {
-	Op      string `json:"op"`
-	Auto    bool   `json:"auto,omitempty"`
-	TTL     int    `json:"ttl,omitempty"`
-	Preempt bool   `json:"preempt,omitempty"`
-	Owned   bool   `json:"owned,omitempty"`
-	Node    string `json:"node,omitempty"`
-	Fail    []int  `json:"fail,omitempty"`
-	Hard    bool   `json:"hard,omitempty"`
-	Np      bool   `json:"np,omitempty"`
-	Who     string `json:"who,omitempty"`
-	Ready   bool   `json:"ready,omitempty"`
-	N       int    `json:"n,omitempty"`
+	Op        string `json:"op"`
+	Auto      bool   `json:"auto,omitempty"`
+	TTL       int    `json:"ttl,omitempty"`
+	Preempt   bool   `json:"preempt,omitempty"`
+	Owned     bool   `json:"owned,omitempty"`
+	DefDirect bool   `json:"defDirect,omitempty"` // reset: the controller's defaultJobMode is EvictDirectly (the job itself asks for ReservationFirst)
+	Node      string `json:"node,omitempty"`
+	Fail      []int  `json:"fail,omitempty"`
+	Stale     bool   `json:"stale,omitempty"` // reconcile: the informer cache lags one write of the job behind (where that is possible)
+	Hard      bool   `json:"hard,omitempty"`
+	Np        bool   `json:"np,omitempty"`
+	Who       string `json:"who,omitempty"`
+	Ready     bool   `json:"ready,omitempty"`
+	N         int    `json:"n,omitempty"`
 }
 
 // ---------------------------------------------------------------------------------------------- shared, built once
@@ -141,6 +143,10 @@ type c17World struct {
 	hit    bool
 	calls  []interface{}
 	jw     []string // persisted phase after every accepted write of the job
+	// the versions of the job persisted since this controller incarnation started (a lagging informer cache hands out an
+	// earlier one); staleJob = what the next Get of the job returns instead of the current object
+	jobHist  []*sev1alpha1.PodMigrationJob
+	staleJob *sev1alpha1.PodMigrationJob
 	// statistics (coverage report only)
 	st *c17Stats
 }
@@ -168,6 +174,10 @@ func (w *c17World) wrote(obj client.Object, err error) error {
 	if err == nil && w != nil && w.inRec {
 		if _, ok := obj.(*sev1alpha1.PodMigrationJob); ok {
 			w.jw = append(w.jw, w.persistedPhase())
+			cur := &sev1alpha1.PodMigrationJob{}
+			if e := w.api.Get(context.TODO(), types.NamespacedName{Name: c17JobName}, cur); e == nil {
+				w.jobHist = append(w.jobHist, cur)
+			}
 		}
 	}
 	return err
@@ -210,6 +220,14 @@ func c17Server() {
 	c17API = fake.NewClientBuilder().WithStatusSubresource(&sev1alpha1.PodMigrationJob{}).WithScheme(c17Scheme).Build()
 	wr := func() bool { return c17Cur != nil && c17Cur.write() }
 	c17Client = interceptor.NewClient(c17API, interceptor.Funcs{
+		Get: func(ctx context.Context, c client.WithWatch, key client.ObjectKey, obj client.Object, opts ...client.GetOption) error {
+			if job, ok := obj.(*sev1alpha1.PodMigrationJob); ok && c17Cur != nil && c17Cur.staleJob != nil {
+				c17Cur.staleJob.DeepCopyInto(job)
+				c17Cur.staleJob = nil
+				return nil
+			}
+			return c.Get(ctx, key, obj, opts...)
+		},
 		Create: func(ctx context.Context, c client.WithWatch, obj client.Object, opts ...client.CreateOption) error {
 			if wr() {
 				return c17Injected
@@ -269,9 +287,15 @@ func c17NewWorld(rec *vu.Recorder, st *c17Stats, reset c17Step) *c17World {
 		filter:            func(pod *corev1.Pod) bool { return true },
 		preEvictionFilter: func(pod *corev1.Pod) bool { return true },
 	}
+	args := c17Args
+	if reset.DefDirect {
+		a := *c17Args
+		a.DefaultJobMode = string(sev1alpha1.PodMigrationJobModeEvictionDirectly)
+		args = &a
+	}
 	w.r = &Reconciler{
 		Client:                 cl,
-		args:                   c17Args,
+		args:                   args,
 		eventRecorder:          c17Recorder,
 		reservationInterpreter: &c17Interp{Interpreter: reservation.NewInterpreter(&c17Mgr{c: cl}), w: w},
 		evictorInterpreter:     &c17Evictor{w: w},
@@ -303,7 +327,7 @@ func c17NewWorld(rec *vu.Recorder, st *c17Stats, reset c17Step) *c17World {
 	if err := w.api.Create(context.TODO(), job); err != nil {
 		panic(err)
 	}
-	rec.Reset(vu.Ev{"ttl": w.ttl, "preempt": w.preempt, "owned": w.owned, "node": node, "obs": w.obs()})
+	rec.Reset(vu.Ev{"ttl": w.ttl, "preempt": w.preempt, "owned": w.owned, "defDirect": reset.DefDirect, "node": node, "obs": w.obs()})
 	st.segs++
 	return w
 }
@@ -561,8 +585,15 @@ func (w *c17World) exec(s c17Step) {
 			fl = append(fl, k)
 		}
 		sort.Ints(fl)
+		// a lagging informer: this reconcile reads the job as it was one persisted write earlier. Only where the controller
+		// itself wrote both versions in this incarnation (after a restart the informer is synced anew)
+		stale := s.Stale && len(w.jobHist) >= 2
+		if stale {
+			w.staleJob = w.jobHist[len(w.jobHist)-2]
+		}
 		_, err := w.r.Reconcile(ctx, reconcile.Request{NamespacedName: types.NamespacedName{Name: c17JobName}})
-		w.inRec = false
+		w.inRec, w.staleJob = false, nil
+		e["stale"] = stale
 		e["fail"], e["hit"], e["nwrites"], e["writes"], e["err"], e["calls"] = fl, w.hit, w.wcount, w.jw, err != nil, w.calls
 		applied = true
 		w.st.reconciles++
@@ -618,7 +649,7 @@ func (w *c17World) exec(s c17Step) {
 		e["who"] = s.Who
 		if r := w.getResv(); r != nil && reservationutil.IsReservationAvailable(r) {
 			owner := corev1.ObjectReference{Kind: "Pod", Namespace: c17PodNS, Name: "some-other-pod", UID: "other-uid"}
-			ok := s.Who == "other"
+			ok := s.Who == "other" || s.Who == "gone"
 			if s.Who == "same" {
 				if pod := w.getPod(); pod != nil && c17UID(pod.UID) > 1 && pod.Spec.NodeName == r.Status.NodeName {
 					owner = corev1.ObjectReference{Kind: "Pod", Namespace: pod.Namespace, Name: pod.Name, UID: pod.UID}
@@ -627,6 +658,9 @@ func (w *c17World) exec(s c17Step) {
 			}
 			if ok {
 				r.Status.CurrentOwners = []corev1.ObjectReference{owner}
+				if s.Who == "gone" { // the consumer has been deleted since: the reservation stays Succeeded, without owners
+					r.Status.CurrentOwners = nil
+				}
 				reservationutil.SetReservationSucceeded(r)
 				w.updateResv(r)
 				applied = true
@@ -673,6 +707,7 @@ func (w *c17World) exec(s c17Step) {
 		// the process restarts: every in-memory cache is lost and the controller gets a new identity
 		w.gen++
 		w.r.assumedCache = newAssumedCache()
+		w.jobHist = nil
 		w.r.reconcilerUID = types.UID("reconciler-" + strconv.Itoa(w.gen))
 		applied = true
 		w.st.restarts++
@@ -723,7 +758,7 @@ func c17Replay(rec *vu.Recorder, st *c17Stats, script []c17Step) {
 // ---------------------------------------------------------------------------------------------- online random driver
 // picks the next step from what is possible in the CURRENT real state (read from the API server): steering, not judging
 func c17RandomRun(rec *vu.Recorder, st *c17Stats, rng *rand.Rand, steps int) {
-	reset := c17Step{Op: "reset", Node: "n1", Preempt: rng.Intn(3) == 0, Owned: rng.Intn(8) == 0}
+	reset := c17Step{Op: "reset", Node: "n1", Preempt: rng.Intn(3) == 0, Owned: rng.Intn(8) == 0, DefDirect: rng.Intn(6) == 0}
 	switch rng.Intn(4) {
 	case 0:
 		reset.TTL = 2
@@ -759,7 +794,7 @@ func c17RandomRun(rec *vu.Recorder, st *c17Stats, rng *rand.Rand, steps int) {
 	for i := 0; i < steps; i++ {
 		k := rng.Intn(100)
 		if k < 45 {
-			s := c17Step{Op: "reconcile"}
+			s := c17Step{Op: "reconcile", Stale: rng.Intn(5) == 0}
 			switch {
 			case faultProb == 1 && rng.Intn(4) == 0, faultProb == 2 && rng.Intn(2) == 0:
 				s.Fail = []int{1 + rng.Intn(5)}
@@ -824,6 +859,7 @@ func c17RandomRun(rec *vu.Recorder, st *c17Stats, rng *rand.Rand, steps int) {
 			case reservationutil.IsReservationAvailable(r):
 				add(1, c17Step{Op: "rexpire"})
 				add(1, c17Step{Op: "rbind", Who: "other"})
+				add(1, c17Step{Op: "rbind", Who: "gone"})
 				p := w.getPod()
 				if evicting && p == nil {
 					add(6, c17Step{Op: "rbind", Who: "other"})
